@@ -52,10 +52,17 @@ def EQ.pop (q : EQ) : Option Act × EQ :=
     (some a, { events := rest, head := (q.head + 1) % M64,
                emap := (match a.key? with | some k => alErase q.emap k | none => q.emap) })
 
+/-- `SyncQueue` -/
+structure SyncQ where
+  r : Nat                 -- remote
+  keys : List Nat         -- keys still to send
+  pending : Nat           -- events queued before the sync request and not yet emitted (`pending_events`)
+  deriving Repr, DecidableEq
+
 /-- `WriteQueues` -/
 structure WQ where
   eq : EQ := {}
-  syncs : List (Nat × List Nat) := []    -- `sync_queues`: (remote, keys still to send)
+  syncs : List SyncQ := []               -- `sync_queues`
   syncIndex : Nat := 0
   nextIsEvent : Bool := true             -- `NextWrite.next`
   deriving Repr
@@ -71,10 +78,10 @@ def removeFirst (k : Nat) : List Nat → List Nat
   | x :: xs => if x = k then xs else x :: removeFirst k xs
 
 /-- `update_sync_queues` -/
-def updateSyncs (syncs : List (Nat × List Nat)) : Act → List (Nat × List Nat)
-  | .upd k => syncs.map (fun p => (p.1, removeFirst k p.2))
-  | .rem k => syncs.map (fun p => (p.1, removeFirst k p.2))
-  | .clear => syncs.map (fun p => (p.1, []))
+def updateSyncs (syncs : List SyncQ) : Act → List SyncQ
+  | .upd k => syncs.map (fun p => { p with keys := removeFirst k p.keys, pending := p.pending - 1 })
+  | .rem k => syncs.map (fun p => { p with keys := removeFirst k p.keys, pending := p.pending - 1 })
+  | .clear => syncs.map (fun p => { p with keys := [], pending := p.pending - 1 })
 
 /-- `WriteQueues::pop` -/
 def WQ.pop (w : WQ) : Option ToWrite × WQ :=
@@ -85,13 +92,17 @@ def WQ.pop (w : WQ) : Option ToWrite × WQ :=
     | (none, _) => (none, w1)
   else
     match w.syncs[w.syncIndex]? with
-    | some (r, k :: ks) =>
+    | some ⟨r, k :: ks, p⟩ =>
       (some (.syncEvent r k),
-       { w1 with syncs := w.syncs.set w.syncIndex (r, ks), syncIndex := (w.syncIndex + 1) % w.syncs.length })
-    | some (r, []) =>
-      (some (.synced r),
-       { w1 with syncs := w.syncs.eraseIdx w.syncIndex,
-                 syncIndex := if w.syncIndex ≥ (w.syncs.eraseIdx w.syncIndex).length then 0 else w.syncIndex })
+       { w1 with syncs := w.syncs.set w.syncIndex ⟨r, ks, p⟩, syncIndex := (w.syncIndex + 1) % w.syncs.length })
+    | some ⟨r, [], p⟩ =>
+      -- (after the `fix:`) the remote is not in sync until the events that preceded its request have been emitted
+      (match (if p > 0 then w.eq.pop else (none, w.eq)) with
+        | (some a, eq') => (some (.event a), { w1 with eq := eq', syncs := updateSyncs w1.syncs a })
+        | (none, _) =>
+          (some (.synced r),
+           { w1 with syncs := w.syncs.eraseIdx w.syncIndex,
+                     syncIndex := if w.syncIndex ≥ (w.syncs.eraseIdx w.syncIndex).length then 0 else w.syncIndex }))
     | none => (none, w1)
 
 def WQ.isEmpty (w : WQ) : Bool := w.eq.events.isEmpty && w.syncs.isEmpty
@@ -134,7 +145,7 @@ def popFrame (content : List (Nat × Nat)) : Nat → WQ → Option Frame × WQ
         | none => popFrame content fuel w')
     | (some (.synced r), w') => (some (.synced r), w')
 
-def fuelFor (w : WQ) : Nat := 2 * (w.eq.events.length + (w.syncs.foldl (fun n p => n + p.2.length + 1) 0)) + 4
+def fuelFor (w : WQ) : Nat := 2 * (w.eq.events.length + (w.syncs.foldl (fun n p => n + p.keys.length + 1) 0)) + 4
 
 inductive Op
   | update (k v : Nat)
@@ -160,7 +171,8 @@ def step (s : St) : Op → St × Option (WriteResult × Option Frame)
   | .update k v => (pushAct { s with content := insertSorted k v s.content } (.upd k), none)
   | .remove k => (doRemove s k, none)
   | .clear => (pushAct { s with content := [] } .clear, none)
-  | .sync r => ({ s with wq := { s.wq with syncs := s.wq.syncs ++ [(r, s.content.map (·.1))] } }, none)
+  | .sync r =>
+    ({ s with wq := { s.wq with syncs := s.wq.syncs ++ [⟨r, s.content.map (·.1), s.wq.eq.events.length⟩] } }, none)
   | .write =>
     let x := popFrame s.content (fuelFor s.wq) s.wq
     match x.1 with
